@@ -89,9 +89,10 @@ Why(r) ==
          Exp(n) == << "./" \o RelPath(w, n), w.nodes[n].name, Str(ExtC(w.nodes[n].namec)), Str(DirC(w, n)), AbsOf(n), AbsOf(w.nodes[n].parent),
                       BoolText(w.nodes[n].namec[1] = "."),
                       BoolText(IF w.nodes[n].kind = "dir" THEN ChildrenOf(w, n) = {} ELSE r.snapshot[n].sizen = 0) >>
-         \* (for a link the statement fixes its location - dir, absdir - not what abspath resolves to, nor emptiness)
+         \* (for a link the statement fixes its location - dir, absdir - not what abspath resolves to; its own size, as lstat gives it,
+         \* is the length of the target text: a link is not empty)
          bad == { <<i, j>> \in (1 .. Len(rows)) \X (1 .. Len(cols)) : ids[i] # 0 /\ rows[i][j] # Exp(ids[i])[j]
-                                                                      /\ ~(w.nodes[ids[i]].kind = "symlink" /\ cols[j] \in {"abspath", "is_empty"}) }
+                                                                      /\ ~(w.nodes[ids[i]].kind = "symlink" /\ cols[j] = "abspath") }
      IN IF { ids[i] : i \in 1 .. Len(rows) } # all \/ Len(rows) # Cardinality(all) THEN "wrong-row-set"
         ELSE IF bad # {} THEN "wrong-" \o cols[(CHOOSE p \in bad : \A q \in bad : p[2] <= q[2])[2]] ELSE "ok"
   ELSE IF r.kind = "extclass" THEN
@@ -121,7 +122,7 @@ Why(r) ==
                    IF row[2] # s.size THEN "size" ELSE IF row[3] # s.uid THEN "uid" ELSE IF row[4] # s.gid THEN "gid"
                    ELSE IF s.user # "" /\ row[5] # s.user THEN "user" ELSE IF s.group # "" /\ row[6] # s.group THEN "group"
                    ELSE IF row[7] # s.ino THEN "inode" ELSE IF row[8] # s.nlink THEN "hardlinks" ELSE IF row[9] # s.blocks THEN "blocks"
-                   ELSE IF row[10] # StampText(s.mtime, 0) THEN "modified"
+                   ELSE IF row[10] # StampText(s.mtime, ZoneOffAt(r.off, s.mtime)) THEN "modified"
                    ELSE IF row[11] # BoolText(x.hasx \/ x.cap >= 0) THEN "has_xattrs"
                    ELSE IF x.cap < 0 /\ row[12] # "" THEN "caps"
                    ELSE IF x.cap >= 0 /\ ~CapOk(row[12], x.cap, x.capflags) THEN "caps" ELSE ""
